@@ -27,6 +27,7 @@ import numpy as np
 from physt._construction import (
     calculate_1d_bins,
     calculate_nd_bins,
+    extract_1d_array,
     extract_nd_array,
     extract_weights,
 )
@@ -481,9 +482,12 @@ def azimuthal(
         data = np.concatenate(
             [np.asarray(xdata)[:, np.newaxis], np.asarray(ydata)[:, np.newaxis]], axis=1
         )
-    data, array_mask = extract_transformed_data(
-        data, transformed=False, klass=AzimuthalHistogram, dropna=dropna
-    )
+    if transformed:
+        data, array_mask = extract_1d_array(data, dropna=dropna)
+    else:
+        data, array_mask = extract_transformed_data(
+            data, transformed=False, klass=AzimuthalHistogram, dropna=dropna
+        )
     if isinstance(bins, int):
         bins = np.linspace(*range, bins + 1)
     bin_schema = calculate_1d_bins(
@@ -532,9 +536,12 @@ def radial(
                 axis=1,
             )
 
-    data, array_mask = extract_transformed_data(
-        data, transformed=transformed, klass=RadialHistogram, dropna=dropna
-    )
+    if transformed:
+        data, array_mask = extract_1d_array(data, dropna=dropna)
+    else:
+        data, array_mask = extract_transformed_data(
+            data, transformed=False, klass=RadialHistogram, dropna=dropna
+        )
     bin_schema = calculate_1d_bins(
         data, bins, range=range, check_nan=not dropna, **kwargs
     )
